@@ -124,16 +124,39 @@ Theorem C13_component_view_tracks_parent : forall ops h c p i h1 ap ac,
 Proof. exact component_view_tracks_parent. Qed.
 Print Assumptions C13_component_view_tracks_parent.
 
-(* full statement wanted: the in-bounds hypothesis is an invariant of reachable heaps; proved here
-   with the bound as a hypothesis (the weaker invariant [wf] is the one proved invariant) *)
-Theorem C13_setitem_reads_back_partial : forall h d src h' a cells, exec h (OSet d SAll src) = (h', ROk) ->
-  lookup d (env h) = Some (VArr a) -> a_shape a <> [] ->
-  a_off a + size (a_shape a) <= length (nth (a_buf a) (bufs h) []) ->
+Theorem C13_wfs_reachable : forall ops, wfs (exec_seq empty_heap ops).
+Proof. exact wfs_reachable. Qed.
+Print Assumptions C13_wfs_reachable.
+
+(* a successful d[:] = src is read back through d (on every reachable heap: [wfs]) *)
+Theorem C13_setitem_reads_back : forall h d src h' a cells, wfs h -> exec h (OSet d SAll src) = (h', ROk) ->
+  lookup d (env h) = Some (VArr a) ->
   (exists ps u, eval_operand h src = Some ps /\ as_ufarg (bufs h) ps = Some u /\
      assign_cells (a_dt a) (a_shape a) (u_cplx u) (u_shape u) (u_cells u) = Some cells) ->
   read_arr (bufs h') a = cells.
-Proof. exact setitem_reads_back. Qed.
-Print Assumptions C13_setitem_reads_back_partial.
+Proof. exact setitem_reads_back_wfs. Qed.
+Print Assumptions C13_setitem_reads_back.
+
+(* a write through a component view is seen in the parent, and vice versa *)
+Theorem C13_component_write_seen_in_parent : forall h c p i h1 ap ac src h2 cells, wfs h ->
+  exec h (OComp c p i) = (h1, ROk) -> lookup p (env h) = Some (VArr ap) -> c <> p ->
+  lookup c (env h1) = Some (VArr ac) ->
+  exec h1 (OSet c SAll src) = (h2, ROk) ->
+  (exists ps u, eval_operand h1 src = Some ps /\ as_ufarg (bufs h1) ps = Some u /\
+     assign_cells (a_dt ac) (a_shape ac) (u_cplx u) (u_shape u) (u_cells u) = Some cells) ->
+  firstn (size (a_shape ac)) (skipn (i * size (a_shape ac)) (read_arr (bufs h2) ap)) = cells.
+Proof. exact component_write_seen_in_parent. Qed.
+Print Assumptions C13_component_write_seen_in_parent.
+
+Theorem C13_parent_write_seen_in_component : forall h c p i h1 ap ac src h2 cells, wfs h ->
+  exec h (OComp c p i) = (h1, ROk) -> lookup p (env h) = Some (VArr ap) -> c <> p ->
+  lookup c (env h1) = Some (VArr ac) ->
+  exec h1 (OSet p SAll src) = (h2, ROk) ->
+  (exists ps u, eval_operand h1 src = Some ps /\ as_ufarg (bufs h1) ps = Some u /\
+     assign_cells (a_dt ap) (a_shape ap) (u_cplx u) (u_shape u) (u_cells u) = Some cells) ->
+  read_arr (bufs h2) ac = firstn (size (a_shape ac)) (skipn (i * size (a_shape ac)) cells).
+Proof. exact parent_write_seen_in_component. Qed.
+Print Assumptions C13_parent_write_seen_in_component.
 
 (* (7) abs() is the maximum norm, and that is a norm (exact cells; real: Z, complex: squared modulus
    with sqrt S <= sqrt A + sqrt B written root-free as [sqrt_le_sum]) *)
